@@ -123,11 +123,27 @@ def _is_generator(node):
     return False
 
 
+def _pure_memo_decorator(d, node):
+    """@lru_cache(...) / @cache on `def f(x): return re.compile(x)`."""
+    name = ast.unparse(d.func if isinstance(d, ast.Call) else d)
+    if name not in ('lru_cache', 'functools.lru_cache', 'cache',
+                    'functools.cache'):
+        return False
+    body = _body_wo_doc(node)
+    return len(body) == 1 and isinstance(body[0], ast.Return) and \
+        isinstance(body[0].value, ast.Call) and \
+        ast.unparse(body[0].value.func) in ('re.compile',) and \
+        not body[0].value.keywords and all(
+            isinstance(a, ast.Name) for a in body[0].value.args)
+
+
 def _eligible(kind, owner, node):
     if isinstance(node, ast.AsyncFunctionDef):
         return None
     static = classm = False
     for d in node.decorator_list:
+        if _pure_memo_decorator(d, node):
+            continue        # memoising a pure one-liner changes nothing
         if isinstance(d, ast.Name) and d.id == 'staticmethod' and \
                 kind == 'method':
             static = True
@@ -2940,6 +2956,10 @@ class _Quantifiers(ast.NodeTransformer):
     def visit_Call(self, node):
         self.generic_visit(node)
         f = node.func
+        if isinstance(f, ast.Name) and f.id == 'getattr' and \
+                len(node.args) == 2 and not node.keywords and \
+                isinstance(node.args[1], (ast.BinOp, ast.JoinedStr)):
+            node.args[1] = _fold_strings(node.args[1])
         if isinstance(f, ast.Name) and f.id == 'getattr' and \
                 len(node.args) == 2 and not node.keywords and \
                 isinstance(node.args[1], ast.Constant) and \
